@@ -448,7 +448,7 @@ def model_check(ctx, thorough):
     r = ctx.tlc_expect_ok(['dram'], 'MC_BankedMem.tla', 'MC_BankedMem_live.cfg', timeout=900)
     ctx.log('MC_BankedMem_live (Progress under fairness): %d distinct states' % r.distinct)
     if thorough:
-        for cfg in ('MC_BankedMem_n2.cfg', 'MC_BankedMem_4.cfg', 'MC_BankedMem_big.cfg'):
+        for cfg in ('MC_BankedMem_n2.cfg', 'MC_BankedMem_4.cfg', 'MC_BankedMem_big.cfg', 'MC_BankedMem_4all.cfg'):
             r = ctx.tlc_expect_ok(['dram'], 'MC_BankedMem.tla', cfg, workers=min(vlib.NCPU, 12), timeout=3000)
             ctx.log('%s: %d distinct states, depth %d' % (cfg, r.distinct, r.depth))
         ctx.cov['exhaustive'] = True
@@ -498,7 +498,7 @@ def run(ctx, selftest=False):
 
     # 3. code -> spec: seeded conflict-heavy environments far beyond the model's bounds
     plan = ([('plain', 140), ('track', 60), ('wide', 30), ('wide_track', 10), ('mi300a', 12)] if not thorough else
-            [('plain', 1500), ('track', 500), ('wide', 300), ('wide_track', 100), ('mi300a', 120)])
+            [('plain', 3000), ('track', 1000), ('wide', 600), ('wide_track', 200), ('mi300a', 240)])
     for cls, n in plan:
         for _ in range(n):
             scen.append(gen_random(rng, cls, rng.choice([6, 12, 25, 40]) if not thorough else rng.choice([6, 12, 25, 40, 80])))
@@ -515,7 +515,7 @@ def run(ctx, selftest=False):
     diag = {int(k) for k in stats['suspect']}
     if diag != set(bad):
         ctx.notes.append('diagnostic oracle and TLC disagree on runs %s' % sorted(diag ^ set(bad))[:10])
-    handle_failures(ctx, drv, scen, tfile, bad, cap=2000 if thorough else 150)
+    handle_failures(ctx, drv, scen, tfile, bad, cap=4000 if thorough else 150)
 
     parts = vlib.split_traces(tfile)
     good = [i for i in range(len(parts)) if i not in bad]
